@@ -27,6 +27,8 @@ P := {
   _missing: m{|name| raise ValueErr.new("boom#{.v}") if .k == 2; raise StopIterErr.new("stop#{.v}") if .k == 3; raise MyErr.new("mine#{.v}") if .k == 4; nil if .k == 1 else [name, .v, \0[2:]]},
   g: m{|e, a| raise ValueErr.new("boom#{e.v}") if e.k == 2; raise StopIterErr.new("stop#{e.v}") if e.k == 3; raise MyErr.new("mine#{e.v}") if e.k == 4; nil if e.k == 1 else .bro({k: 0, v: .v + e.v + a})},
 }
+MyInt := Int.bear({'+: m{|o| 1000}, '*: m{|o| 7}, S: m{"my"}, inc: m{100}, '<=>: m{|o| 0}})
+MyStr := Str.bear({len: m{-1}, '+: m{|o| "mine"}, S: m{"mystr"}})
 nil`
 
 // Case is the replayable unit (everything is recomputed from these fields).
@@ -423,9 +425,12 @@ var builtinRecvs = []string{
 	`[1, "a", nil, [2], 2.5]`, `[[1], [], [3, 4], nil]`, `[1, 2, 3]`, `[]`, `["x", "", "yz"]`, `[nil, nil]`, `(1:5)`, `(5:1:-2)`, `3`, `0`, `"abc"`, `""`, `"日本"`,
 	`{a: 1, b: "x"}`, `{}`, `{a: [1], b: nil}`, `%{1: 2, "a": [3]}`, `%{}`, `%{[1]: nil, 2: 3}`, `('a:'e)`, `[[1, 2], [3, 4]]`, `[{a: 1}, {b: 2}, {}]`, `[0, 1, 2]`, `[4, 0, 2]`,
 	`Arr.bear.new([1, nil, "q"])`, `Str.bear.new("ab")`,
+	// elements of one built-in scalar type but different prototypes (a prototype may override the called property)
+	`[MyInt.new(2), 1, MyInt.new(3), 4]`, `[1, MyInt.new(2), 3]`, `[MyStr.new("a"), "b", MyStr.new("c")]`, `["x", MyStr.new("y")]`, `[MyInt.new(1), 2.5, "s", MyStr.new("t"), nil]`,
 }
 var builtinProps = []struct{ prop, arg string }{
 	{"+", "1"}, {"+", `"s"`}, {"*", "2"}, {"-", "1"}, {"//", "2"}, {"//", "0"}, {"%", "0"}, {"at", "[0]"}, {"at", "[5]"}, {"at", "['a]"}, {"S", ""}, {"len", ""}, {"A", ""}, {"B", ""},
+	{"inc", ""}, {"+", "MyInt.new(1)"}, {"+", "MyStr.new(\"z\")"}, {"*", "3"},
 	{"first", ""}, {"sum", ""}, {"has?", "1"}, {"nosuchprop", ""}, {"==", "1"}, {"keys", ""}, {"T", ""}, {"rev", ""}, {"<=>", "1"}, {"try", ""},
 }
 
@@ -443,7 +448,7 @@ func genBuiltinCase(t *rapid.T) Case {
 	case 3, 4:
 		c.Main = "$"
 		if rapid.IntRange(0, 2).Draw(t, "init") > 0 {
-			c.ChainArg = rapid.SampledFrom([]string{"0", "1", `""`, "[]", "nil", "100"}).Draw(t, "init")
+			c.ChainArg = rapid.SampledFrom([]string{"0", "1", `""`, "[]", "nil", "100", "MyInt.new(2)", `MyStr.new("q")`, "Int.bear.new(5)"}).Draw(t, "init")
 		}
 	default:
 		c.Main = "."
